@@ -232,6 +232,52 @@ def ctor_values(c, seed):
     return []
 
 
+# constructor keywords that are NOT controllers (payload tables etc.); each controller keyword is also combined with them
+EXTRA_CTOR_KW = {
+    "SpectraVoice": {"harmonics": [[(1000, 100, 5, 1)], [(1000, 100, 5, 1), (2000, 50, 9, 2)],
+                                   [(100 * i + 100, 10 * i, i, i % 14) for i in range(16)]]},
+    "Generator": {"samples": [[], [5] * 32]},
+    "AnalogGenerator": {"samples": [[], [5] * 32]},
+    "Fmx": {"custom_waveform_values": [[0.5] * 256]},
+    "MultiSynth": {"nv_values": [[7] * 128], "vv_values": [[9] * 257]},
+    "MultiCtl": {"curve": [[3] * 257], "mappings": [[(0, 100, 2)], [(0, 100, 2), (5, 7, 1)]]},
+    "WaveShaper": {"values": [[11] * 256]},
+    "VorbisPlayer": {"data": [b"OggS123"]},
+    "Sampler": {"instrument_name": [b"ins"]},
+}
+
+
+def ctor_with_extras(tkey, seed):
+    """Every controller keyword (two in-domain values) together with every non-controller constructor keyword of the
+    type: the controller must read back exactly the value given."""
+    t = spec.types()[tkey]
+    cls = cls_of(tkey)
+    vs, n = [], 0
+    for xname, xvals in EXTRA_CTOR_KW.get(tkey, {}).items():
+        for xi, xv in enumerate(xvals):
+            for c in t.controllers:
+                if c.kind == "dependent":
+                    continue
+                for (va, ea) in ctor_values(c, seed):
+                    n += 1
+                    case = {"type": tkey, "ctor_extra": [xname, xi, c.name]}
+                    try:
+                        import contextlib
+                        import io
+
+                        with contextlib.redirect_stdout(io.StringIO()):     # AnalogGenerator(samples=...) prints its samples
+                            m = cls(**{xname: xv, c.attr: va})
+                    except Exception as ex:
+                        vs.append(C.viol("ctor-pair-rejected", {"type": tkey, "a": xname, "b": c.name},
+                                         {"values": [repr(xv)[:60], va], "exc": type(ex).__name__}, case))
+                        continue
+                    got = getattr(m, c.attr)
+                    if as_int(got) != ea:
+                        vs.append(C.viol("ctor-pair-not-stored", {"type": tkey, "a": xname, "b": c.name},
+                                         {"values": [repr(xv)[:60], va], "read": repr(got)}, case))
+    return n, vs
+
+
 def ctor_pairs(tkey, seed, only=None):
     """Constructor keywords in COMBINATION: every unordered pair of controllers of the type x two in-domain values
     each; both must read back exactly (a constructor that post-processes one keyword when another is present --
@@ -371,6 +417,8 @@ def run_case(case):
     if case.get("default") or "ctor" in case:
         _n, vs = check_defaults_and_ctor(case["type"], 0)
         return [v for v in vs if v["key"].get("controller") == case["controller"]]
+    if case.get("ctor_extra"):
+        return [v for v in ctor_with_extras(case["type"], 0)[1] if v["case"]["ctor_extra"] == case["ctor_extra"]]
     if case.get("ctor_pair"):
         return ctor_pairs(case["type"], 0, only=case["ctor_pair"])[1]
     _n, vs = check_controller(case["type"], case["controller"], 0, case["lenient"], case.get("unit"),
@@ -382,6 +430,8 @@ def _task(t):
     r = C.new_result()
     if t[0] == "ctorpairs":
         n, vs = ctor_pairs(t[1], t[2])
+        n2, vs2 = ctor_with_extras(t[1], t[2])
+        n, vs = n + n2, vs + vs2
         C.count(r, "ctor_pairs", n)
         r["sample"] = {"type": t[1], "ctor_pairs": True}
     elif t[0] == "defaults":
